@@ -8,7 +8,9 @@ WX = 'src/world/world_ext.rs'
 N10 = [('N10', r'res\.entry::<MaskedStorage<T>>\(\)\s*\.or_insert_with\(', 'res.entry_or_insert_with::<MaskedStorage<T>, _>('),
        ('N10', r'res\.fetch_mut::<MetaTable<dyn AnyStorage>>\(\)\s*\.register::<MaskedStorage<T>>\(\)', 'res.meta_table_register::<MaskedStorage<T>>()'),
        ('N10', r'self\.entry\(\)\s*\.or_insert_with\(', 'self.entry_or_insert_with::<MaskedStorage<T>, _>('),
-       ('N10', r'self\.fetch_mut::<MetaTable<dyn AnyStorage>>\(\)\s*\.register::<MaskedStorage<T>>\(\)', 'self.meta_table_register::<MaskedStorage<T>>()')]
+       ('N10', r'self\.fetch_mut::<MetaTable<dyn AnyStorage>>\(\)\s*\.register::<MaskedStorage<T>>\(\)', 'self.meta_table_register::<MaskedStorage<T>>()'),
+       # the same two calls with the fetched table bound to a local first
+       ('N10', r'let (?:mut )?(\w+) = (self|res)\.fetch_mut::<MetaTable<dyn AnyStorage>>\(\);\s*\1\.register::<MaskedStorage<T>>\(\)', r'\2.meta_table_register::<MaskedStorage<T>>()')]
 
 
 def build():
